@@ -12,6 +12,7 @@ import time
 VERIF = os.path.dirname(os.path.dirname(os.path.abspath(__file__)))
 SIM = os.path.join(VERIF, "sim")
 REPO = os.environ.get("CFFSIM_REPO", "/repo")  # the tree under test (checks always use /repo; background experiments may point elsewhere)
+OUT = os.environ.get("CFFSIM_OUT", VERIF)  # where evidence/ and replays/ go (experiments against another tree write elsewhere)
 GO126 = "go1.26.8"
 NPROC = 16
 
@@ -251,14 +252,14 @@ def _check(prop, tier, seed, tmp, t0):
             # C15 quantifies over user identifiers named like generated ones. If the corpus
             # only builds once those names are replaced by neutral ones, the names are the cause.
             binaries["l2"], _, nprogs = build_l2(tmp, race, tier, seed, name="l2plain", plain=True)
-            os.makedirs(os.path.join(VERIF, "replays"), exist_ok=True)
-            path = os.path.join(VERIF, "replays", "C15_l2_names-break-output_s%d.json" % seed)
+            os.makedirs(os.path.join(OUT, "replays"), exist_ok=True)
+            path = os.path.join(OUT, "replays", "C15_l2_names-break-output_s%d.json" % seed)
             json.dump(dict(property="C15", engine="l2-compile-names", corpus=dict(seed=seed, tier=tier), detail=str(e)[-4000:],
                            message="the corpus builds when user variables have neutral names, but not when they are named like identifiers the generated code introduces",
                            **{"class": "generated-identifier-captures-user-name"}), open(path, "w"), indent=1)
             name_viol.append(("generated-identifier-captures-user-name", "programs whose variables are called like generated identifiers (sched, emitter, tasks, v1, ...) are accepted by cff but the output does not compile; the same programs with neutral names do: " + str(e)[-500:].replace("\n", " | "), path))
     secs = SECS[tier]
-    replaydir = os.path.join(VERIF, "replays")
+    replaydir = os.path.join(OUT, "replays")
     os.makedirs(replaydir, exist_ok=True)
     jobs, meta = [], []
     for i in range(NPROC):
@@ -328,7 +329,7 @@ def _check(prop, tier, seed, tmp, t0):
 
 def finish(prop, tier, seed, t0, sums, crashes, binaries, race, engines, extra_cov=None, extra_viol=None, extra_infra=None):
     known = load_known()
-    replaydir = os.path.join(VERIF, "replays")
+    replaydir = os.path.join(OUT, "replays")
     infra = list(extra_infra or [])
     confirmed = list(extra_viol or [])   # (class, msg, path)
     for c in crashes:
@@ -446,8 +447,8 @@ def finish(prop, tier, seed, t0, sums, crashes, binaries, race, engines, extra_c
                            "sampling, not enumeration: the property held on the runs explored",
                            "go1.26.8 testing/synctest semantics (quiescence detection, fake clock)"],
               wall_s=round(wall, 2), violations=len(violations))
-    os.makedirs(os.path.join(VERIF, "evidence"), exist_ok=True)
-    json.dump(ev, open(os.path.join(VERIF, "evidence", prop + ".json"), "w"), indent=1)
+    os.makedirs(os.path.join(OUT, "evidence"), exist_ok=True)
+    json.dump(ev, open(os.path.join(OUT, "evidence", prop + ".json"), "w"), indent=1)
     log("%s %s seed=%d: runs=%d steps=%d distinct_interleavings=%d states=%d wall=%.0fs engines=%s faults=%s" % (prop, tier, seed, runs, steps, len(inter), len(states), wall, per_engine, faults))
     for k, msg, path in knowns:
         log("KNOWN-FINDING: property=%s %s (%s) replay=%s" % (prop, k.get("what", k.get("class")), msg[:200], path))
@@ -475,7 +476,7 @@ def check_c20(tier, seed, tmp, t0):
     npk, per, maxt = CORPUS[tier]
     base, _, n1 = build_l2(tmp, False, tier, seed, name="base", genmode="base", corpus=(max(2, npk // 2), per, maxt))
     mbase, _, n2 = build_l2(tmp, False, tier, seed + 1, name="mbase", genmode="base", kind="modifier", corpus=(max(2, npk // 2), per, maxt))
-    replaydir = os.path.join(VERIF, "replays")
+    replaydir = os.path.join(OUT, "replays")
     os.makedirs(replaydir, exist_ok=True)
     build_viol = []
     smap = mmod = None
